@@ -70,6 +70,10 @@ HashCode(b) == IF KindOf(b) \in {"list", "dict"} THEN TYE ELSE 1
 
 TOP    == "@top"                 \* proxy kind: stack() -- the top of the LocalStack
 PKinds == Names \cup {TOP}       \* proxy kinds: ns(name) for each name, and stack()
+CVK    == "@cv"                  \* LocalProxy(a plain ContextVar without default)
+FNK    == "@fn"                  \* LocalProxy(callable): the callable is the resolver of ns("x")
+AllKinds == PKinds \cup {CVK, FNK}
+MCKinds  == PKinds               \* kinds enumerated by the bounded models (overridable in a cfg)
 NoBox  == 0
 
 NsOps      == {"set", "get", "del", "iter", "release"}
@@ -93,10 +97,10 @@ IopQuick   == {1, 5}
 \* LocalManager.cleanup(), closing the iterable returned by the LocalManager middleware, popping
 \* the stack until it is empty
 ReleaseOps == {"release", "release_stack", "cleanup", "release_dunder", "release_stack_dunder",
-               "mw", "pop_all"}
+               "mw", "mw_close", "pop_all"}
 MgrOps     == {"mkmgr", "mgr_append"}
 MgrForms   == {"none", "local", "stack", "both", "lstack"}    \* LocalManager() / (ns) / (stack) / ([ns, stack]) / ([stack])
-KnownOps   == NsOps \cup StackOps \cup ProxyOps \cup ReleaseOps \cup MgrOps \cup {"spawn"}
+KnownOps   == NsOps \cup StackOps \cup ProxyOps \cup ReleaseOps \cup MgrOps \cup {"spawn", "nop", "cv_set", "mw_enter"}
 ReadOps    == {"get", "iter", "top", "proxy_read"}
 
 \* ---- state ------------------------------------------------------------------------------
@@ -113,7 +117,9 @@ InitState(made0) ==
    stack |-> [c \in Ctxs |-> <<>>],
    cont  |-> [b \in Boxes |-> Init0(b)],
    made  |-> made0,
-   mgr   |-> {"ns", "stack"}]      \* what the current LocalManager manages (initially both)
+   mgr   |-> {"ns", "stack"},      \* what the current LocalManager manages (initially both)
+   cvar  |-> [c \in Ctxs |-> NoBox],   \* value of the plain ContextVar behind the @cv proxy
+   infl  |-> {}]                   \* contexts with a request in flight in the manager middleware
 
 \* ---- operations -------------------------------------------------------------------------
 \* op record : [ctx, op, n (name | ""), b (box | 0), v (value), k (proxy kind | ""), child (ctx | 0)]
@@ -127,7 +133,10 @@ ExcR(e)  == Ret("exc", 0, e)
 
 TopOf(s) == IF Len(s) = 0 THEN NoBox ELSE s[Len(s)]
 \* the object a proxy of kind k resolves to *in context c* (NoBox: nothing bound there)
-Bound(S, c, k) == IF k = TOP THEN TopOf(S.stack[c]) ELSE S.attrs[c][k]
+Bound(S, c, k) == IF k = TOP THEN TopOf(S.stack[c])
+                  ELSE IF k = CVK THEN S.cvar[c]
+                  ELSE IF k = FNK THEN (IF "x" \in Names THEN S.attrs[c]["x"] ELSE NoBox)
+                  ELSE S.attrs[c][k]
 BoundNames(S, c) == {n \in Names : S.attrs[c][n] # NoBox}
 NoAttrs == [n \in Names |-> NoBox]
 
@@ -137,10 +146,18 @@ Enabled(S, o) ==
   /\ CASE o.op = "set"                              -> o.n \in Names /\ o.b \in Boxes
        [] o.op \in {"get", "del"}                   -> o.n \in Names
        [] o.op = "push"                             -> o.b \in Boxes
-       [] o.op = "mkproxy"                          -> o.k \in PKinds
+       [] o.op = "mkproxy"                          -> o.k \in AllKinds
+       [] o.op = "cv_set"                           -> o.b \in Boxes
        [] o.op \in {"proxy_read"} \cup ObjOps       -> o.k \in S.made
        [] o.op = "spawn"                            -> o.child \in Ctxs \ S.alive
-       [] o.op = "mkmgr"                            -> o.k \in MgrForms
+       \* (vocabulary: the manager object is not replaced while one of its requests is in flight)
+       [] o.op = "mkmgr"                            -> o.k \in MgrForms /\ S.infl = {}
+       \* the same request in two steps, so that requests of different contexts overlap:
+       \* mw_enter = the call of the middleware (the app runs; v = 3: it raises), mw_close = the
+       \* returned iterable is consumed (v as for "mw": 0 all, 1 nothing, 2 partly) and closed
+       [] o.op = "mw_enter" -> /\ o.ctx \notin S.infl /\ o.k \in {"make", "deco"} /\ o.v \in {0, 3}
+                               /\ (IF o.n # "" THEN o.n \in Names /\ o.b \in Boxes ELSE o.b \in Boxes \cup {NoBox})
+       [] o.op = "mw_close" -> o.ctx \in S.infl /\ o.v \in 0..2
        [] o.op = "mgr_append"                       -> o.k \in {"local", "stack"}
        \* one request through manager.make_middleware(app) ("make") / @manager.middleware ("deco");
        \* the app binds name n to b (n given), else pushes b (b given), else touches nothing;
@@ -162,6 +179,7 @@ Released(S, o) == CASE o.op \in {"release", "release_dunder"} -> {"ns"}
                     [] o.op \in {"release_stack", "release_stack_dunder", "pop_all"} -> {"stack"}
                     [] o.op = "cleanup" -> S.mgr
                     [] o.op = "mw" -> IF o.v = 3 THEN {} ELSE S.mgr
+                    [] o.op = "mw_close" -> S.mgr
                     [] OTHER -> {}
 
 \* An operation forwarded by a proxy to the object b it resolved to (b # NoBox): what Python does.
@@ -204,7 +222,7 @@ RetOf(S, o) ==
     [] o.op = "iter" -> IntR(Cardinality(BoundNames(S, c)))
     [] o.op \in {"pop", "top"} -> IF Len(S.stack[c]) = 0 THEN NoneR ELSE BoxR(TopOf(S.stack[c]))
     [] o.op = "pop_all" -> IntR(Len(S.stack[c]))                 \* number of items popped before None
-    [] o.op = "mw" -> IF o.v = 3 THEN ExcR("AppError") ELSE OkR  \* (not judged: not part of the property)
+    [] o.op \in {"mw", "mw_enter"} -> IF o.v = 3 THEN ExcR("AppError") ELSE OkR  \* (not judged: not part of the property)
     [] o.op = "proxy_read"   -> IF Bound(S, c, o.k) # NoBox THEN BoxR(Bound(S, c, o.k)) ELSE ExcR("RuntimeError")
     [] o.op \in ObjOps -> IF Bound(S, c, o.k) # NoBox THEN ObjRet(S.cont, Bound(S, c, o.k), o)
                            ELSE ExcR("RuntimeError")
@@ -224,6 +242,11 @@ NextOf(S, o) ==
     \* "local data is released automatically after the response has been sent": closing the returned
     \* iterable releases (consumed or not); when the app raises there is nothing to close
     [] o.op = "mw" -> IF o.v = 3 THEN AppEffect(S, o) ELSE ReleaseIn(AppEffect(S, o), c, S.mgr)
+    \* overlapping requests: entering affects the entering context only (the app's writes); closing
+    \* releases in the closing context only, whatever other requests are still in flight
+    [] o.op = "mw_enter" -> IF o.v = 3 THEN AppEffect(S, o) ELSE [AppEffect(S, o) EXCEPT !.infl = @ \cup {c}]
+    [] o.op = "mw_close" -> ReleaseIn([S EXCEPT !.infl = @ \ {c}], c, S.mgr)
+    [] o.op = "cv_set" -> [S EXCEPT !.cvar[c] = o.b]
     [] o.op = "mkmgr" -> [S EXCEPT !.mgr = MgrOf(o.k)]
     [] o.op = "mgr_append" -> [S EXCEPT !.mgr = @ \cup MgrOf(o.k)]
     [] o.op = "mkproxy" -> [S EXCEPT !.made = @ \cup {o.k}]
@@ -231,12 +254,14 @@ NextOf(S, o) ==
                            THEN [S EXCEPT !.cont = ObjNext(S.cont, Bound(S, c, o.k), o)] ELSE S
     [] o.op = "spawn" -> [S EXCEPT !.alive = @ \cup {o.child},
                                    !.attrs[o.child] = S.attrs[c],
-                                   !.stack[o.child] = S.stack[c]]
+                                   !.stack[o.child] = S.stack[c],
+                                   !.cvar[o.child] = S.cvar[c]]
     [] OTHER -> S          \* get, iter, top, proxy_read
 
 \* Outcomes the documentation leaves open (the judge accepts NextOf or this one):
 \*  - the app raised inside the middleware: releasing anyway is as acceptable as not releasing
-AltNextOf(S, o) == IF o.op = "mw" /\ o.v = 3 THEN ReleaseIn(AppEffect(S, o), o.ctx, S.mgr) ELSE NextOf(S, o)
+AltNextOf(S, o) == IF o.op \in {"mw", "mw_enter"} /\ o.v = 3 THEN ReleaseIn(AppEffect(S, o), o.ctx, S.mgr)
+                   ELSE NextOf(S, o)
 
 Step(S, o) == [s |-> NextOf(S, o), ret |-> RetOf(S, o)]
 
@@ -249,7 +274,7 @@ ViewOf(S, c) == [attrs |-> S.attrs[c], stack |-> S.stack[c],
 \* (checked by TLC on the contract in MCLocals; the judge enforces them on the real code by
 \* comparing every context's observed view with the contract state after every step)
 NoLeak(S, o, T) ==            \* an operation in one context changes no sibling's bindings
-  \A d \in S.alive : d # o.ctx => T.attrs[d] = S.attrs[d] /\ T.stack[d] = S.stack[d]
+  \A d \in S.alive : d # o.ctx => T.attrs[d] = S.attrs[d] /\ T.stack[d] = S.stack[d] /\ T.cvar[d] = S.cvar[d]
 ChildSeesSnapshot(S, o, T) == \* a child starts with exactly the parent's bindings
   o.op = "spawn" => /\ T.attrs[o.child] = S.attrs[o.ctx] /\ T.stack[o.child] = S.stack[o.ctx]
                     /\ T.attrs[o.ctx] = S.attrs[o.ctx]   /\ T.stack[o.ctx] = S.stack[o.ctx]
